@@ -17,6 +17,18 @@ theorem C17_key_inj (kind : Nat) (t₁ t₂ : Bytes) (i j : Nat) (hi : i < 2 ^ 6
     (h : mkKey kind t₁ i = mkKey kind t₂ j) : t₁ = t₂ ∧ i = j :=
   mkKey_inj hi hj h
 
+/-- No normalisation: keys are built from the bytes of the name as given, so two *different*
+accepted names — however similar (`acme` / `acme␠` / `Acme` / NFC vs NFD / `acme/`) — never
+share a key, and the scan prefix of one never matches a key of the other. -/
+theorem C17_distinct_names_disjoint_keys (kind : Nat) (t₁ t₂ : Bytes) (i j : Nat)
+    (h₁ : accepts t₁ = true) (h₂ : accepts t₂ = true) (hne : t₁ ≠ t₂)
+    (hi : i < 2 ^ 64) (hj : j < 2 ^ 64) :
+    mkKey kind t₁ i ≠ mkKey kind t₂ j ∧ hasPrefix (scanPrefix t₁) (mkKey kind t₂ j) = false := by
+  refine ⟨fun h => hne (mkKey_inj hi hj h).1, ?_⟩
+  cases hp : hasPrefix (scanPrefix t₁) (mkKey kind t₂ j)
+  · rfl
+  · exact absurd (prefix_sep (accepts_iff.mp h₁).2 (accepts_iff.mp h₂).2 hp) hne
+
 /-- Prefix separation: the scan prefix `t₁:` of an accepted name is a prefix of a key of an
 accepted name `t₂` only if `t₁ = t₂` (first-separator argument) — and it always is one of
 its own keys. -/
@@ -135,6 +147,14 @@ example : (run [.putNode [97] 1 10, .putNode [98] 2 20, .putNode [97, 58, 110] 3
 
 example : nodeKey [97] 255 = [97, 58, 110, 58, 48, 48, 48, 48, 48, 48, 48, 48, 48, 48, 48, 48, 48, 48, 102, 102] := by
   decide
+
+/-- "acme" and "acme " (trailing space) are both accepted and stay apart: same id, own data -/
+example : let ops := [Op.putNode [97, 99, 109, 101] 1 10, .putNode [97, 99, 109, 101, 32] 1 20,
+                      .delNode [97, 99, 109, 101] 1]
+    accepts [97, 99, 109, 101, 32] = true
+    ∧ getNode (run ops) [97, 99, 109, 101, 32] 1 = some (some ⟨1, 20⟩)
+    ∧ getNode (run ops) [97, 99, 109, 101] 1 = some none
+    ∧ (listTenants (run ops)) = [[97, 99, 109, 101, 32]] := by decide
 
 example : scanNodes (run [.putNode [97, 57] 1 1, .putNode [97, 59] 2 2, .putNode [97] 3 3]) [97]
     = some [⟨3, 3⟩] := by decide
